@@ -22,6 +22,8 @@ TRUSTED = ['str.lower() enters the model as a Section variable (theorems hold fo
            'plugin.loadPluginModule file lookup (os.listdir + (?i) regex, importlib) is reduced to: unknown name / ImportError / other exception / module; '
            'names with regex metacharacters and two plugin directories differing only in case are outside the generators',
            'module-level reload() hooks of a plugin module and the supybot.plugins.<Name> flag are not modelled',
+           'sys.modules is modelled only as the set of plugin module names popped by a failed import (what Owner.reload looks up); '
+           'cb.__module__ is taken to be the plugin name (objects added directly with addCallback never count as popped)',
            'T20: shapes of Owner.callPrecedence, Misc.callPrecedence, IrcCallback.callPrecedence asserts + firewall default, the strEqual guards and the '
            'except ImportError clause of Owner.reload are re-read from the source on every run (fail-closed)']
 ASSUMPTIONS = ['world.testing/log.testing off (log.firewall active); Python asserts enabled (no -O)',
@@ -412,7 +414,34 @@ def has_failing_reload(inp):
     return any(op[0] == 'reload' and (op[2] >= 2 or op[3] or op[4]) for op in inp['ops'])
 
 
-CLASSES = {'failing_reload': has_failing_reload, 'cyclic_constraints': has_cycle, 'self_reference': has_self_reference}
+def has_reload_after_failed_import(inp):
+    """abstract replay per plugin name of (registered, module popped from sys.modules): true when a `reload` reaches a registered plugin
+    whose module an earlier failed import (in load or reload) has popped and no successful import has re-entered since"""
+    reg, popped = {}, {}
+    for op in inp['ops']:
+        if op[0] not in ('boot', 'load', 'unload', 'reload') or spec_of(inp['world'], op[1]) is None:
+            continue
+        x = op[1].lower()
+        if op[0] == 'unload':
+            reg[x] = False
+        elif op[0] in ('boot', 'load'):
+            if reg.get(x):
+                continue                      # "already loaded": nothing is imported
+            imp, init = (0, 0) if op[0] == 'boot' else (op[2], op[3])
+            popped[x] = imp >= 1
+            reg[x] = imp == 0 and not init
+        else:
+            if not reg.get(x):
+                continue                      # "There was no plugin": nothing is imported
+            if popped.get(x):
+                return True
+            popped[x] = op[2] >= 1
+            if op[2] >= 2 or (op[2] == 0 and (op[3] or op[4])):
+                reg[x] = False                # the other reload defect (failing_reload)
+    return False
+
+
+CLASSES = {'failing_reload': has_failing_reload, 'reload_after_failed_import': has_reload_after_failed_import, 'cyclic_constraints': has_cycle, 'self_reference': has_self_reference}
 
 
 # ----------------------------------------------------------------------------------------------------
@@ -573,6 +602,9 @@ CORPUS = [
     # reload with a raising constructor loses the plugin
     {'world': [['Owner', 1, [], [], []], ['Alpha', 0, [], [], ['cmdalpha']]],
      'ops': [['boot', 'Owner'], ['load', 'Alpha', 0, 0], ['reload', 'Alpha', 0, 1, 0]]},
+    # reload after a reload that failed with ImportError: KeyError from sys.modules[...], plugin lost (seed 4 of the quick tier)
+    {'world': [['Owner', 1, [], [], []], ['Gamma', 0, [], [], ['cmdgamma']]],
+     'ops': [['boot', 'Owner'], ['load', 'Gamma', 0, 0], ['reload', 'Gamma', 1, 0, 0], ['reload', 'gamma', 0, 0, 0]]},
     # cyclic load: error, but the plugin stays registered behind Misc
     {'world': [['Owner', 1, [], [], []], ['Misc', 2, [], [], []], ['Alpha', 0, ['Owner'], [], ['cmdalpha']]],
      'ops': [['boot', 'Owner'], ['boot', 'Misc'], ['load', 'Alpha', 0, 0]]},
@@ -596,7 +628,7 @@ def run(ctx):
         sub = kind
         if kind != 'corpus':
             sub += ('-selfref' if has_self_reference(inp) else '-cyclic' if has_cycle(inp) else
-                    '-failing-reload' if has_failing_reload(inp) else '-clean')
+                    '-failing-reload' if (has_failing_reload(inp) or has_reload_after_failed_import(inp)) else '-clean')
         ctx.case(sub, inp, nontrivial=len(inp['ops']) >= 2)
         traces.append(tr)
         if bad:
